@@ -28,6 +28,8 @@ func c01(c *Ctx) {
 	r.Rule("C01.control-undisturbing", "control frames arriving between data frames do not end the data stream: the default ping/pong/close handlers are the documented ones and the default ping and pong handlers return nil whatever WriteControl reports (same rule as C08.defaults)")
 	c08defaults(c, rd, "C01.control-undisturbing")
 	r.Rule("C01.early-bytes", "frames the client pipelined behind its handshake reach the frame reader exactly once: brNetConn.Read hands out the hijacked reader's bytes first and detaches it only once it is drained (same rule as C17.brnetconn)")
+	r.Rule("C01.compression-agreed", "both ends agree on whether messages are compressed: the reply's extension header is examined on every field line (same rule as C15.all-header-lines)")
+	allHeaderLines(c, "C01.compression-agreed", "parseExtensions")
 	c.borrow(c17, map[string]string{"C17.brnetconn": "C01.early-bytes", "C17.client-reader": "C01.early-bytes", "C17.reader-stable": "C01.early-bytes"})
 	r.Rule("C01.inflater-exclusive", "a decompressor returned to the pool is forgotten in the same step, so two connections never inflate through one flate reader (same rule as C03.inflater-exclusive)")
 	if c.poolTypestate("C01.inflater-exclusive", "(*flateReadWrapper).Close", "(*flateReadWrapper).Read") < 1 {
